@@ -186,7 +186,10 @@ def build_instruction(mn, variants):
             for ci, combo in enumerate(v['specific']):
                 pre = '' if v.get('specific_same_ids') else 'x'      # same ids: the listed operands are named like the set members
                 ops['specific_operands'][f'c{ci}'] = {'list': {f'{pre}{name}{k}': ALTS[name][1](code) for k, (name, code) in enumerate(combo)}}
-        vcfgs.append({'bytecode': {'value': v['opcode'], 'size': 8}, 'operands': ops})
+        if v.get('noops'):
+            vcfgs.append({'bytecode': {'value': v['opcode'], 'size': 8}})          # a variant without an operands section
+        else:
+            vcfgs.append({'bytecode': {'value': v['opcode'], 'size': 8}, 'operands': ops})
     cfg = dict(vcfgs[0])
     if len(vcfgs) > 1:
         cfg['variants'] = vcfgs[1:]
@@ -410,7 +413,22 @@ def shard(acc, tier, idx, n):
             v1 = {'opcode': 0xF3, 'count': 2, 'sets': [[(a1, 9)], [(a3, 10)]],
                   'specific': [[(a1, 2), ('EMPTY', 14)], [(a2, 3), (a3, 4)]]}
             group.append((f't{k}', [v1]))
+            # ... and followed by a later variant whose operand count equals the number of operands written: definition order decides
+            group.append((f'u{k}', [v1, {'opcode': 0xF4, 'sets': [[(a1, 9), (a2, 10)]]}]))
         run_group(acc, group, texts_e2)
+    for g0 in range(0, len(singles_alts), G):
+        ctr += 1
+        if ctr % n != idx:
+            continue
+        group = []
+        for k, a1 in enumerate(singles_alts[g0:g0 + G]):
+            # no operand written: an earlier variant that accepts it through an empty operand, later ones that take no operands at all
+            v1 = {'opcode': 0xF6, 'count': 1, 'sets': [[(a1, 9)]], 'specific': [[('EMPTY', 14)]]}
+            group.append((f'w{k}', [v1, {'opcode': 0xF7, 'sets': [], 'noops': True}]))
+            group.append((f'x{k}', [v1, {'opcode': 0xF8, 'sets': []}]))
+            group.append((f'y{k}', [{'opcode': 0xF9, 'sets': [], 'noops': True}, v1]))
+            group.append((f'z{k}', [{'opcode': 0xFA, 'sets': []}, v1]))
+        run_group(acc, group, texts_e)
     # ---- three variants, one slot --------------------------------------------------------------------------------
     tri = [s for s in subs if len(s) == 1] + [('reg_a', 'numeric'), ('enum_foo', 'numeric'), ('ind_num', 'ind_reg_a')]
     triples = list(itertools.product(range(len(tri)), repeat=3))
